@@ -38,6 +38,32 @@ def main():
         print(f"HARNESS-ERROR: cannot import curtsies from {REPO} or props.{pid}:\n{traceback.format_exc()[-1500:]}")
         return 3
     check = Check(pid, tier, seed, getattr(mod, "LEVEL", claimed_level(pid)))
+    # watchdog: a check that does not come back (a broken function that loops or makes the enumeration explode) must still give a
+    # verdict.  Limits are far above the normal run time (quick: 1-90 s, thorough: <= 8 min).
+    import threading
+    limit = int(os.environ.get("VERIF_WATCHDOG_S", "0") or 0) or (900 if tier == "quick" else 4 * 3600)
+
+    def expired():
+        print(f"  the check did not finish within {limit} s (normal: seconds to minutes)")
+        if check.violation_lines or check.pending_refuted:
+            rc = check.finish()
+        else:
+            check.violation(f"{pid}.did_not_finish", dict(tier=tier, limit_s=limit),
+                            f"the check of {pid} did not finish within {limit} s on this tree: some operation of the library does not terminate or "
+                            "makes the enumeration blow up (on the unchanged tree the same check takes seconds to minutes)",
+                            replay={"kind": "obligation", "contract": "watchdog"}, found_input=False)
+            rc = check.finish()
+        sys.stdout.flush()
+        try:        # the solver / suite worker processes must not outlive the check
+            import multiprocessing
+            for ch in multiprocessing.active_children():
+                ch.kill()
+        except Exception:       # noqa: BLE001
+            pass
+        os._exit(rc)
+    wd = threading.Timer(limit, expired)
+    wd.daemon = True
+    wd.start()
     for a in getattr(mod, "ASSUMPTIONS", []):
         check.assume(a)
     try:
